@@ -58,6 +58,20 @@ CHECKS = {
         'Trusted: the harness packet generator/header table; real sockets and libusb threads are not driven.',
         'DESIGN.md 3/C02',
     ),
+    'C06': (
+        'model-based histories over a multi-device world; routing model + table agreement + byte-exact scan reports',
+        'exploration',
+        'Generated histories (connect with public/random own addresses on either end, legacy/extended advertising, '
+        'overlapping incoming/outgoing connects, BR/EDR connects, payloads on a test fixed channel, disconnects by '
+        'either side, active/passive scans incl. a scanner that advertises itself) over 2..4 real Devices on one '
+        'LocalLink with generated HCI delays and link iteration order. After every operation: caller got the '
+        'connection it asked for, the peer reports the matching address, no bystander event, handles live and '
+        'distinct, each payload arrives exactly once at the right peer and nowhere else, disconnection reported to '
+        'both ends and removed from device/host/controller tables, advertising reports byte-exact.',
+        'Trusted: the routing model in the check; no RF loss in the virtual link; scans use the legacy scan commands '
+        '(the virtual controller implements no extended scan commands).',
+        'DESIGN.md 3/C06',
+    ),
     'C14': (
         'differential (two back ends) + specification vectors + algebraic relations',
         'exploration',
